@@ -2278,6 +2278,35 @@ theorem c14_connection_table_shared_key_asks_wrong_server :
     mRun (K := Nat) (D := Nat) (fun _ => 0) false {} [(0, true), (1, true)] = [(0, some 0), (1, some 1)] ∧
     mRun (K := Nat) (D := Nat) id true {} [(0, true), (1, true)] = [(0, some 0), (1, some 1)] := by decide
 
+/-! ### a handler that acknowledges without a message (seed C14r7-B) -/
+
+/-- **an acknowledgement carries nothing of its request**: the handler of `C14Ack` (interface return type,
+`(nil, nil)`) is registered on the websocket API, and whatever two requests carry, when both are
+acknowledged their replies are the same — the empty message, which `protobuf.Encode` accepts — so no byte
+of a request can come back as its reply (`ProcessClientRequest` returning its `buf` parameter, which holds
+the request, when the reply is nil falsifies this against the run: `corpus:ack-without-message`) -/
+theorem c14_ack_reply_is_empty (m m' : Msg) (r r' : Reply)
+    (h : transform ackTag m = .ret r) (h' : transform ackTag m' = .ret r') :
+    wsTag "C14Ack" = some ackTag ∧ r = r' ∧ r = { a := 0, s := [], b := [], n := 0 } ∧
+    concreteWs.encode r = some [] := by
+  have key : ∀ (x : Msg) (y : Reply), transform ackTag x = .ret y → y = { a := 0, s := [], b := [], n := 0 } := by
+    intro x y hx
+    unfold transform at hx
+    repeat' split at hx
+    all_goals first
+      | (cases hx; done)
+      | (rename_i hne; exact absurd rfl hne)
+      | (simp only [HandlerResult.ret.injEq] at hx; rw [← hx]; try simp)
+  have e1 := key m r h
+  have e2 := key m' r' h'
+  refine ⟨by decide, by rw [e1, e2], e1, ?_⟩
+  rw [e1]; rfl
+
+/-- non-vacuity: two different requests, both acknowledged; a failing one is not -/
+example : transform ackTag { a := 5, s := [102, 105, 118, 101], b := [7, 8, 9] } = .ret { a := 0, s := [], b := [], n := 0 } ∧
+    transform ackTag { a := -7, s := sNilReply, b := [] } = .ret { a := 0, s := [], b := [], n := 0 } ∧
+    transform ackTag { a := 1, s := sFail, b := [] } = .fail true := by decide
+
 /-! ### the code regions the model stands for
 Regenerated from /repo's source on every run (`harness/cmd/astfacts` → `OnetVerif/Shapes.lean`): the
 calls that matter for synchronisation and data flow, the lock regions and (for decision logic) the
